@@ -58,10 +58,10 @@ L1Terminates == R.end = "done"
 \* C07: if the function or any single write step of Transform reports an error the previous contents remain
 L1FaultKeepsOld == (R.family = "Fault" /\ R.inject.kind # "none") =>
      /\ R.final = R.init
-     /\ \A i \in 1..Len(Evs) : (Evs[i].ev = "ret" /\ Evs[i].op = "transform") => Evs[i].res = "err"
+     /\ \A i \in 1..Len(Evs) : (Evs[i].ev = "ret" /\ Evs[i].op \in {"transform", "write"}) => Evs[i].res = "err"
 \* ... and without an injected error a lone Transform publishes exactly f(old)
 L1CleanTransform == (R.family = "Fault" /\ R.inject.kind = "none") =>
-     \A i \in 1..Len(Evs) : (Evs[i].ev = "ret" /\ Evs[i].op = "transform") => Evs[i].res = "ok"
+     \A i \in 1..Len(Evs) : (Evs[i].ev = "ret" /\ Evs[i].op \in {"transform", "write"}) => Evs[i].res = "ok"
 
 Bad(name) == PrintT(<<"BAD", name, t>>)
 InvL1NoOverlap      == (L1NoOverlap \/ Bad("L1NoOverlap")) /\ NoteShared
